@@ -1,5 +1,7 @@
 use crate::common::*;
 
+pub mod c04;
+pub mod c06;
 pub mod c20;
 
 pub fn stack_mb(engine: &str) -> usize {
@@ -12,6 +14,8 @@ pub fn stack_mb(engine: &str) -> usize {
 
 pub fn dispatch(engine: &str, cfg: &Cfg) -> i32 {
     match engine {
+        "c04" => c04::run(cfg),
+        "c06" => c06::run(cfg),
         "c20" => c20::run(cfg),
         _ => {
             eprintln!("unknown engine {engine}");
